@@ -177,6 +177,7 @@ func checkC17(c *Ctx) {
 	c.scratchHoldsTheMessage()
 	// nothing but the sender goroutine writes to the socket once it runs
 	c.connackBeforeStart()
+	c.socketWrittenOnlyByHandshake()
 }
 
 // writerCriticalSpan: L7 in the ring writer.
